@@ -23,7 +23,14 @@ Search oracle: the property itself on the implementation — sha256 of the image
     link groups spread over siblings, parent and child, depths, names sorting against their directories,
     bytes >= 0x80, case-only and late differences, growth steps of the name array), each packed with default
     options, -k, -o and glob lines.  Orders: host, sorted, reverse (both relative orders of every pair of
-    siblings), a rotation of each, seeded shuffles.  `sensitivity` measures with the model of the non-sorting
+    siblings), a rotation of each, seeded shuffles.  Host numbers that are not content (session 3, seed C11-6): every run but the
+    host-order one sees the tree through a bijection on its (st_dev, st_ino) pairs injected by the shim under stat / lstat /
+    fstat / fstatat / statx / readdir (`ino_assignment`: ascending and descending along the scan, random, the multiply-linked
+    files as global minimum / maximum / in the middle, numbers equal in their low 32 bits / modulo 64, around 2^63 and
+    2^64 - 1, other device numbers, the same inode numbers on two devices); the tie feeds the model the remapped numbers
+    (the shim's log of applied remappings is checked against the map).  Cross-check without injection: a second copy of
+    the contents really created in another order on tmpfs (`creation_variant`), contents compared by lstat, images must
+    be equal.  `sensitivity` measures with the model of the non-sorting
     iterator which directories of the shaped trees would betray a skipped sort (coverage.distribution).
 """
 import base64
@@ -110,8 +117,10 @@ def private_tools(ctx):
     raise last
 
 
-def run_packer(exe, shim, mode, args, cwd, dump=None, log=None, timeout=120):
+def run_packer(exe, shim, mode, args, cwd, dump=None, log=None, timeout=120, inomap=None):
     env = {"PATH": os.environ.get("PATH", "/usr/bin:/bin"), "LD_PRELOAD": shim, "RDSHIM_MODE": mode, "LC_ALL": "C"}
+    if inomap:
+        env["RDSHIM_INOMAP"] = inomap
     if log:
         env["RDSHIM_LOG"] = log
     if dump:
@@ -647,17 +656,159 @@ def parse_shim_log(path):
     return out
 
 
-def host_lines(path, order):
-    """H lines (pre-order) of the directory `path` (bytes), children in the logged readdir order."""
+def parse_shim_imap(path):
+    """(dev, ino) -> (new dev, new ino): the remappings the shim logged as applied"""
+    out = {}
+    if not os.path.exists(path):
+        return out
+    for line in open(path):
+        w = line.split()
+        if len(w) == 5 and w[0] == "I":
+            out[(int(w[1]), int(w[2]))] = (int(w[3]), int(w[4]))
+    return out
+
+
+# --------------------------------------------------------------------------------------------
+# host numbers that are not content: inode and device numbers as the scanner sees them
+# --------------------------------------------------------------------------------------------
+
+def split_mode(m):
+    """'<readdir order>[@<inode number assignment>]' -> (order, assignment or '')"""
+    o, _, i = m.partition("@")
+    return o, i
+
+
+def mtag(m):
+    return m.replace(":", "_").replace("@", "+")
+
+
+def scan_walk(root):
+    """[(path relative to root (bytes), lstat)] of the tree, root first, in the order of the sorted scan
+    (pre-order, siblings in strcmp order); mount points are entered."""
+    out = []
+
+    def go(p, rel):
+        st = os.lstat(p)
+        out.append((rel, st))
+        if stat.S_ISDIR(st.st_mode):
+            for n in sorted(os.listdir(p)):
+                go(os.path.join(p, n), (rel + b"/" + n) if rel else n)
+
+    go(os.fsencode(root), b"")
+    return out
+
+
+INO_MODES = ["asc", "desc", "rand", "hlmin", "hlmax", "hlmid", "hi32", "top63", "mod64", "dev2", "devhi"]
+
+
+def ino_assignment(root, imode):
+    """A bijection on the (st_dev, st_ino) pairs of the tree below `root`, chosen by name - a function of the tree
+    contents (its sorted pre-order walk) and the name only, never of the numbers the host happened to hand out:
+      asc / desc   ascending / descending along the sorted scan, numbered per device from the same base (objects on two
+                   devices get the SAME inode numbers)
+      rand:<s>     distinct random numbers
+      hlmin:<s> / hlmax:<s> / hlmid:<s>   random, the multiply-linked files holding the smallest / the largest / the
+                   middle numbers of the tree
+      hi32         7 + (k << 32): all numbers agree in their low 32 bits, all but one are >= 2^32
+      mod64        5 + 64 k: all numbers agree modulo 64
+      top63        numbers straddling 2^63, the largest is 2^64 - 1
+      dev2         asc, every device number replaced by another constant (2^40 + 17 + k)
+      devhi        random numbers, device numbers 2^64 - 1 - k
+    Equal stays equal (hard links stay hard links, a mount point stays one).  Returns ({(dev, ino): (ndev, nino)},
+    [[path, ndev, nino]] in scan order)."""
+    walk = scan_walk(root)
+    objs, seen, multi = [], set(), set()
+    for rel, st in walk:
+        k = (st.st_dev, st.st_ino)
+        if k in seen:
+            multi.add(k)
+        else:
+            seen.add(k)
+            objs.append(k)
+    n = len(objs)
+    name = imode.split(":")[0]
+    if name not in INO_MODES:
+        raise ValueError("unknown inode number assignment %r" % imode)
+    rnd = random.Random("ino/%s/%d" % (imode, n))
+    devs = sorted(set(d for d, _ in objs))
+    devmap = {d: d for d in devs}
+    perm = list(range(n))
+    rnd.shuffle(perm)
+    if name in ("asc", "desc", "dev2"):
+        cnt, tot = {}, {}
+        for d, _ in objs:
+            tot[d] = tot.get(d, 0) + 1
+        nums = []
+        for d, _ in objs:
+            i = cnt.get(d, 0)
+            cnt[d] = i + 1
+            nums.append(2 + (tot[d] - 1 - i if name == "desc" else i))
+        if name == "dev2":
+            devmap = {d: (1 << 40) + 17 + k for k, d in enumerate(devs)}
+    elif name in ("rand", "devhi"):
+        nums = rnd.sample(range(2, 4 * n + 2), n)
+        if name == "devhi":
+            devmap = {d: (1 << 64) - 1 - k for k, d in enumerate(devs)}
+    elif name in ("hlmin", "hlmax", "hlmid"):
+        pool = sorted(rnd.sample(range(2, 4 * n + 2), n))
+        mi = [i for i, k in enumerate(objs) if k in multi]
+        oi = [i for i, k in enumerate(objs) if k not in multi]
+        m = len(mi)
+        lo = 0 if name == "hlmin" else (n - m if name == "hlmax" else (n - m) // 2)
+        mine, rest = pool[lo:lo + m], pool[:lo] + pool[lo + m:]
+        rnd.shuffle(mine)
+        rnd.shuffle(rest)
+        nums = [None] * n
+        for i, v in zip(mi, mine):
+            nums[i] = v
+        for i, v in zip(oi, rest):
+            nums[i] = v
+    elif name == "hi32":
+        nums = [7 + (perm[i] << 32) for i in range(n)]
+    elif name == "mod64":
+        nums = [5 + 64 * perm[i] for i in range(n)]
+    else:  # top63
+        vals = [(1 << 63) - n // 2 + i for i in range(n - 1)] + [(1 << 64) - 1]
+        nums = [vals[perm[i]] for i in range(n)]
+    imap = {k: (devmap[k[0]], nums[i]) for i, k in enumerate(objs)}
+    assert len(set(imap.values())) == len(imap)
+    desc = [[rel.decode("utf-8", "surrogateescape") or ".", imap[(st.st_dev, st.st_ino)][0], imap[(st.st_dev, st.st_ino)][1]]
+            for rel, st in walk]
+    return imap, desc
+
+
+def write_inomap(imap, path):
+    with open(path, "w") as f:
+        for (d, i), (nd, ni) in sorted(imap.items()):
+            f.write("%d %d %d %d\n" % (d, i, nd, ni))
+    return path
+
+
+def check_shim_imap(imap, logged, rc, what):
+    """the remappings the shim reports as applied must be the ones it was given, and a successful scan must have
+    seen some: otherwise the tool reads its stat data through an entry point the shim does not cover"""
+    for k, v in logged.items():
+        if imap.get(k) != v:
+            raise RuntimeError("inode shim applied %r -> %r, the map says %r (%s)" % (k, v, imap.get(k), what))
+    if rc == 0 and imap and not logged:
+        raise RuntimeError("inode shim remapped nothing in a successful run (%s): the tool no longer obtains st_dev/st_ino "
+                           "through stat/lstat/fstat/fstatat/statx, the injected inode numbers are not in effect" % what)
+
+
+def host_lines(path, order, imap=None):
+    """H lines (pre-order) of the directory `path` (bytes), children in the logged readdir order; device and inode
+    numbers as the scanner saw them (through the shim's remapping, if one was in effect)."""
     lines = []
+    imap = imap or {}
 
     def emit(p, name, depth):
         st = os.lstat(p)
         t = TYPE_CHAR[stat.S_IFMT(st.st_mode)]
         tgt = os.readlink(p) if t == "l" else b""
+        dev, ino = imap.get((st.st_dev, st.st_ino), (st.st_dev, st.st_ino))
         lines.append("H %d %s %s %o %d %d %d %d %d %d %s" % (
             depth, hexs(name), t, stat.S_IMODE(st.st_mode), st.st_uid, st.st_gid, st.st_mtime_ns // 10 ** 9,
-            st.st_dev, st.st_ino, st.st_rdev, hexs(tgt)))
+            dev, ino, st.st_rdev, hexs(tgt)))
         if t == "d" and name not in (b".", b".."):
             names = order.get(os.path.realpath(p))
             if names is None:
@@ -665,9 +816,10 @@ def host_lines(path, order):
             for c in names:
                 if c in (b".", b".."):
                     s2 = os.lstat(os.path.join(p, c))
+                    d2, i2 = imap.get((s2.st_dev, s2.st_ino), (s2.st_dev, s2.st_ino))
                     lines.append("H %d %s d %o %d %d %d %d %d %d -" % (
                         depth + 1, hexs(c), stat.S_IMODE(s2.st_mode), s2.st_uid, s2.st_gid,
-                        s2.st_mtime_ns // 10 ** 9, s2.st_dev, s2.st_ino, s2.st_rdev))
+                        s2.st_mtime_ns // 10 ** 9, d2, i2, s2.st_rdev))
                 else:
                     emit(os.path.join(p, c), c, depth + 1)
 
@@ -788,15 +940,17 @@ class Case:
         self.mount = mount        # relative path of a directory that gets a tmpfs mounted on it
         self.root = None
         self.shaped = False       # from shape_cases: gets the per-directory sensitivity analysis
+        self.variants = []        # creation orders in which a second copy of the contents is made and packed
 
     def to_json(self):
         return dict(cid=self.cid, spec=self.spec, kind=self.kind, opts=self.opts, dflt=self.dflt,
-                    packfile=self.packfile, mount=self.mount, shaped=self.shaped)
+                    packfile=self.packfile, mount=self.mount, shaped=self.shaped, variants=self.variants)
 
     @staticmethod
     def from_json(j):
         c = Case(j["cid"], j["spec"], j["kind"], j["opts"], j["dflt"], j.get("packfile"), j.get("mount"))
         c.shaped = bool(j.get("shaped"))
+        c.variants = list(j.get("variants") or [])
         return c
 
     def hl_active(self):
@@ -804,11 +958,12 @@ class Case:
             return "-H" not in self.opts
         return any(l[0] == "glob" and "-nohardlinks" not in l for l in self.packfile)
 
-    def args(self, img):
+    def args(self, img, root=None):
+        root = root or self.root
         a = ["-q", "-f", "-j", "1", "-c", "gzip"] + list(self.opts)
         if self.kind == "file":
-            a += ["-F", os.path.join(self.root, "..", "pack.txt")]
-        return a + ["-D", self.root, img]
+            a += ["-F", os.path.join(root, "..", "pack.txt")]
+        return a + ["-D", root, img]
 
 
 def prepare_case(case, scratch):
@@ -844,7 +999,7 @@ def release_case(case):
 # tie 1: h_scan under the shim vs the extracted model
 # --------------------------------------------------------------------------------------------
 
-def model_input(case, dump_lines, order, sorted_flag):
+def model_input(case, dump_lines, order, sorted_flag, imap=None):
     """Text for the model driver, built from the case, the iterator configurations the harness logged
     (B lines) and the readdir orders the shim logged.  Returns (text, complete)."""
     out = ["CASE %s" % case.cid,
@@ -861,7 +1016,7 @@ def model_input(case, dump_lines, order, sorted_flag):
             assert hpath.startswith(root + b"/")
             fprefix = hexs(hpath[len(root) + 1:])
         op = ["SCAN %d %s %s %s %s %s %s %s %s" % (sorted_flag, flags, duid, dgid, dmode, dmtime, prefix, pattern, fprefix)]
-        op += host_lines(hpath, order)
+        op += host_lines(hpath, order, imap)
         op.append("ENDSCAN")
         return op
 
@@ -900,23 +1055,30 @@ def strip_model(lines):
 
 def tie_scan_one(tools, case, mode, workdir):
     """Returns dict(ok, kind, detail, nontrivial, ...)"""
-    tag = mode.replace(":", "_")
+    tag = mtag(mode)
+    rmode, imode = split_mode(mode)
     dump = os.path.join(workdir, "dump.%s" % tag)
     log = os.path.join(workdir, "shim.%s" % tag)
     img = os.path.join(workdir, "h.%s.sqfs" % tag)
     for p in (dump, log):
         if os.path.exists(p):
             os.unlink(p)
-    rc, err = run_packer(tools["h_scan"], tools["shim"], mode, case.args(img), workdir, dump=dump, log=log)
+    imap, inofile = {}, None
+    if imode:
+        imap, _ = ino_assignment(case.root, imode)
+        inofile = write_inomap(imap, os.path.join(workdir, "inomap.t.%s" % tag))
+    rc, err = run_packer(tools["h_scan"], tools["shim"], rmode, case.args(img), workdir, dump=dump, log=log, inomap=inofile)
     dlines = open(dump).read().split("\n") if os.path.exists(dump) else []
     order = parse_shim_log(log)
+    # the model gets the numbers the scanner saw: the shim's log of applied remappings is checked against the map
+    check_shim_imap(imap, parse_shim_imap(log), rc, "tie, case %s, %s" % (case.cid, mode))
     impl = [l for l in dlines if l and not l.startswith("B ")]
     res = dict(mode=mode, rc=rc, stderr=err[-300:], impl=impl, ok=True, kind="", entries=sum(1 for l in impl if l[0] == "S"),
-               _dlines=dlines, _order=order)
+               _dlines=dlines, _order=order, _imap=imap)
     if rc not in (0, 1):
         res.update(ok=False, kind="crash", detail="harness died with status %d: %s" % (rc, err[-300:]))
         return res
-    text, complete = model_input(case, dlines, order, 1)
+    text, complete = model_input(case, dlines, order, 1, imap)
     mlines = strip_model(run_model(tools, text))
     res["model"] = mlines
     model_failed = any(l.startswith("X ") or l in ("R -1", "R FUEL") for l in mlines)
@@ -929,7 +1091,7 @@ def tie_scan_one(tools, case, mode, workdir):
         return res
     if model_failed or mlines != impl:
         # diagnosis: does the implementation behave like the unrepaired (non-sorting) native iterator?
-        text0, _ = model_input(case, dlines, order, 0)
+        text0, _ = model_input(case, dlines, order, 0, imap)
         m0 = strip_model(run_model(tools, text0))
         diff = next((i for i, (a, b) in enumerate(zip(impl, mlines)) if a != b), min(len(impl), len(mlines)))
         res.update(ok=False, kind="unsorted" if m0 == impl else "mismatch", first_diff=diff,
@@ -970,7 +1132,7 @@ def dir_tags(path):
     return tags
 
 
-def sensitivity(tools, case, dlines, order):
+def sensitivity(tools, case, dlines, order, imap=None):
     """For every directory D the scan opened: would an iterator that sorts every directory except D (D handed out
     in the logged order instead) build another fstree / inode numbering / file list?  Computed with the model of the
     non-sorting iterator fed with sorted listings everywhere but in D.  Returns [(tags, sensitive)]: a partial
@@ -980,7 +1142,7 @@ def sensitivity(tools, case, dlines, order):
     keys = [d for d in order if d == root or d.startswith(root + b"/")]
     texts = []
     for i, d in enumerate([None] + keys):
-        t, complete = model_input(case, dlines, {} if d is None else {d: order[d]}, 0)
+        t, complete = model_input(case, dlines, {} if d is None else {d: order[d]}, 0, imap)
         if not complete:
             return []
         texts.append("CASE v%d\n" % i + t.split("\n", 1)[1])
@@ -1107,18 +1269,27 @@ def tie_image_one(tools, text, img_path):
 # search oracle: the property on the real tool
 # --------------------------------------------------------------------------------------------
 
-def order_oracle(tools, case, modes, workdir):
-    """sha256 of the image (and exit status) of the real gensquashfs under each readdir order."""
+def order_oracle(tools, case, modes, workdir, assigned=None):
+    """sha256 of the image (and exit status) of the real gensquashfs under each readdir order x inode number
+    assignment ('<order>@<assignment>', see split_mode / ino_assignment; no '@': the host's numbers)."""
     out = {}
     listed = {}
     for m in modes:
-        img = os.path.join(workdir, "o.%s.sqfs" % m.replace(":", "_"))
+        rmode, imode = split_mode(m)
+        img = os.path.join(workdir, "o.%s.sqfs" % mtag(m))
         if os.path.exists(img):
             os.unlink(img)
-        log = os.path.join(workdir, "olog.%s" % m.replace(":", "_"))
+        log = os.path.join(workdir, "olog.%s" % mtag(m))
         if os.path.exists(log):
             os.unlink(log)
-        rc, err = run_packer(tools["gensquashfs"], tools["shim"], m, case.args(img), workdir, log=log)
+        imap, inofile = {}, None
+        if imode:
+            imap, desc = ino_assignment(case.root, imode)
+            inofile = write_inomap(imap, os.path.join(workdir, "inomap.o.%s" % mtag(m)))
+            if assigned is not None:
+                assigned[m] = desc
+        rc, err = run_packer(tools["gensquashfs"], tools["shim"], rmode, case.args(img), workdir, log=log, inomap=inofile)
+        check_shim_imap(imap, parse_shim_imap(log), rc, "oracle, case %s, %s" % (case.cid, m))
         seen = parse_shim_log(log)
         root = os.path.realpath(os.fsencode(case.root))
         listed[m] = {(d[len(root) + 1:].decode("utf-8", "surrogateescape") or "."):
@@ -1138,7 +1309,7 @@ def describe_difference(tools, case, ma, mb, workdir):
     """which paths got another inode number"""
     res = []
     try:
-        imgs = [os.path.join(workdir, "o.%s.sqfs" % m.replace(":", "_")) for m in (ma, mb)]
+        imgs = [os.path.join(workdir, "o.%s.sqfs" % mtag(m)) for m in (ma, mb)]
         for e in case.spec[:12]:
             nums = []
             for img in imgs:
@@ -1150,6 +1321,123 @@ def describe_difference(tools, case, ma, mb, workdir):
     except Exception as ex:  # diagnostics only
         res.append("(diagnosis failed: %r)" % (ex,))
     return res[:6]
+
+
+# --------------------------------------------------------------------------------------------
+# cross-check without the shim: the same contents really created in another order (other inode numbers, other raw
+# readdir order, on tmpfs another device and another way of handing out inode numbers)
+# --------------------------------------------------------------------------------------------
+
+CREATION_VARIANTS = ["rev", "linkslast", "shuf", "linksfirst"]
+
+
+def creation_variant(spec, how):
+    """Another creation order of the same contents.  A multiply-linked file is created under another of its names
+    first (the one sorting last; `shuf`: a random one), the other names are linked to that.
+      rev         the reverse of the creation order of the spec (what is scanned first is created last)
+      linkslast   everything else first, the multiply-linked files and their names last (they get the largest numbers)
+      linksfirst  the multiply-linked files first (smallest numbers)
+      shuf        a seeded shuffle
+    Parents are created before their children, a file before its links."""
+    rnd = random.Random("cv/%s/%d" % (how, len(spec)))
+    links = {}
+    for e in spec:
+        if e["k"] == "h":
+            links.setdefault(e["of"], []).append(e["p"])
+    ents, grouped = [], set()
+    for e in spec:
+        if e["k"] == "h":
+            continue
+        if e["p"] in links:
+            names = [e["p"]] + links[e["p"]]
+            first = rnd.choice(names) if how == "shuf" else max(names, key=_bkey)
+            ents.append(dict(e, p=first))
+            grouped.add(first)
+            for x in names:
+                if x != first:
+                    ents.append(dict(p=x, k="h", of=first))
+                    grouped.add(x)
+        else:
+            ents.append(e)
+    if how == "rev":
+        seq = list(reversed(ents))
+    elif how == "shuf":
+        seq = list(ents)
+        rnd.shuffle(seq)
+    elif how == "linkslast":
+        seq = [e for e in ents if e["p"] not in grouped] + list(reversed([e for e in ents if e["p"] in grouped]))
+    else:
+        seq = [e for e in ents if e["p"] in grouped] + [e for e in ents if e["p"] not in grouped]
+    byp = {e["p"]: e for e in ents}
+    out, done = [], set()
+
+    def emit(e):
+        if e["p"] in done:
+            return
+        done.add(e["p"])
+        if "/" in e["p"] and e["p"].rsplit("/", 1)[0] in byp:
+            emit(byp[e["p"].rsplit("/", 1)[0]])
+        if e["k"] == "h":
+            emit(byp[e["of"]])
+        out.append(e)
+
+    for e in seq:
+        emit(e)
+    return out
+
+
+def tree_signature(root):
+    """what of a host tree is content: per path (sorted pre-order) type, permissions, owner, mtime, size, device number of a
+    node, link target, and which paths are names of one file"""
+    first, sig = {}, []
+    for rel, st in scan_walk(root):
+        t = stat.S_IFMT(st.st_mode)
+        grp = first.setdefault((st.st_dev, st.st_ino), rel)
+        sig.append((rel, t, stat.S_IMODE(st.st_mode), st.st_uid, st.st_gid, st.st_mtime_ns // 10 ** 9,
+                    st.st_size if t in (stat.S_IFREG, stat.S_IFLNK) else 0,
+                    st.st_rdev if t in (stat.S_IFCHR, stat.S_IFBLK) else 0,
+                    os.readlink(os.path.join(os.fsencode(root), rel)) if t == stat.S_IFLNK else b"",
+                    grp if t != stat.S_IFDIR else b""))
+    return sig
+
+
+def variant_base(ctx):
+    """tmpfs if there is one (inode numbers and raw readdir order follow the creation order there), else the scratch dir"""
+    d = "/dev/shm"
+    return d if os.path.isdir(d) and os.access(d, os.W_OK | os.X_OK) else ctx.scratch
+
+
+def creation_oracle(ctx, tools, case, how, workdir, base_result):
+    """Packs a second copy of the case's contents, created in the order `how`, with the host's own readdir order and
+    inode numbers; returns None if the copy could not be made with identical contents, else a dict."""
+    import tempfile
+    try:
+        d = tempfile.mkdtemp(prefix="verif.C11.cv.", dir=variant_base(ctx))
+    except OSError:
+        return None
+    try:
+        root = os.path.join(d, "tree")
+        vspec = creation_variant(case.spec, how)
+        try:
+            materialize(vspec, root)
+            if tree_signature(root) != tree_signature(case.root):
+                return None
+            if case.kind == "file":
+                shutil.copy(os.path.join(case.root, "..", "pack.txt"), os.path.join(d, "pack.txt"))
+        except OSError:       # no room on the tmpfs, ...: the copy is not comparable
+            return None
+        img = os.path.join(workdir, "v.%s.sqfs" % how)
+        rc, err = run_packer(tools["gensquashfs"], tools["shim"], "none", case.args(img, root=root), workdir)
+        res = (rc, _sha(img) if rc == 0 and os.path.exists(img) else None)
+        numbers = lambda r: [[rel.decode("utf-8", "surrogateescape") or ".", st.st_dev, st.st_ino] for rel, st in scan_walk(r)]
+        raw = lambda r: [os.fsdecode(n) for n in os.listdir(os.fsencode(r))]
+        return dict(how=how, result=res, same=(res == base_result), created=[e["p"] for e in vspec],
+                    numbers_variant=numbers(root) if res != base_result else None,
+                    numbers_base=numbers(case.root) if res != base_result else None,
+                    raw_root_listing=dict(base=raw(case.root), variant=raw(root)) if res != base_result else None,
+                    on=os.path.dirname(d), stderr=err[-200:])
+    finally:
+        shutil.rmtree(d, ignore_errors=True)
 
 
 # --------------------------------------------------------------------------------------------
@@ -1360,7 +1648,7 @@ def gen_cases(ctx):
     return cases
 
 
-def modes_for(ctx, case, rnd, k):
+def modes_for(ctx, case, rnd, k, ci=0):
     """Readdir orders of one case, chosen deliberately: `sorted` and `reverse` together show both relative orders of
     every pair of sibling entries; a rotation of each puts other entries first and last and moves "." / ".."
     through the listing; the host order and seeded shuffles on top."""
@@ -1368,7 +1656,27 @@ def modes_for(ctx, case, rnd, k):
     ms = ["none", "sorted", "reverse", "seed:%d" % rnd.randrange(1, 10 ** 6), "rot:%d" % r1, "rrot:%d" % r2]
     if k > 6:
         ms += ["rot:%d" % (r1 + 2), "rrot:%d" % (r2 + 3)] + ["seed:%d" % rnd.randrange(1, 10 ** 6) for _ in range(k - 8)]
-    return ms[:max(k, 3)]
+    ms = ms[:max(k, 3)]
+    # ... each under another assignment of inode / device numbers (a bijection on the objects of the tree injected under
+    # the tool's stat calls): the host's own numbers for the host's order; ascending and descending along the scan; random;
+    # the multiply-linked files as global minimum / maximum / in the middle; numbers that collide in their low 32 bits, modulo
+    # 64, numbers around 2^63 and 2^64 - 1, other device numbers.  The pairing of orders and assignments rotates with the case.
+    hl = ["hlmax", "hlmin", "hlmid"]
+    big = ["hi32", "mod64", "top63", "dev2", "devhi"]
+    inos = ["asc", "desc", "rand:%d" % rnd.randrange(1000), "%s:%d" % (hl[ci % 3], rnd.randrange(1000)), big[ci % 5]]
+    inos = inos[ci % 5:] + inos[:ci % 5]
+    out = [ms[0]] + ["%s@%s" % (m, inos[(j) % 5]) for j, m in enumerate(ms[1:])]
+    # two more runs that differ from an earlier one in the numbers only
+    out += ["sorted@%s:%d" % (hl[(ci + 1) % 3], rnd.randrange(1000)), "reverse@%s" % big[(ci + 2) % 5]]
+    if k > 6:
+        extra = ["asc", "desc", "hlmax:7", "hlmin:7", "hlmid:7"] + big
+        if not (has_multilink(case.spec) and case.hl_active()):
+            extra = [extra[(ci + j) % len(extra)] for j in range(3)]
+        out += ["sorted@%s" % x for x in extra]
+    if case.mount:
+        # two devices: the same inode numbers on both (asc), other device numbers that differ in their minor part only
+        out += ["sorted@asc", "sorted@dev2", "sorted@devhi"]
+    return list(dict.fromkeys(out))
 
 
 def check_case(ctx, tools, case, tie_modes, oracle_modes):
@@ -1381,19 +1689,38 @@ def check_case(ctx, tools, case, tie_modes, oracle_modes):
                 out["ties"].append(tie_scan_one(tools, case, m, wd))
             broken = any(not t["ok"] for t in out["ties"])
             if case.shaped and out["ties"] and not out["ties"][0].get("failed_run") and out["ties"][0]["rc"] == 0:
-                out["sens"] = sensitivity(tools, case, out["ties"][0]["_dlines"], out["ties"][0]["_order"])
+                out["sens"] = sensitivity(tools, case, out["ties"][0]["_dlines"], out["ties"][0]["_order"], out["ties"][0].get("_imap"))
             modes = list(oracle_modes)
             if broken:
                 modes = list(dict.fromkeys(modes + ["none", "sorted", "reverse", "rot:1", "rot:2", "rot:3", "rrot:1", "rrot:2"] +
-                                           ["seed:%d" % s for s in range(1, 13)]))
-            res, groups, listed = order_oracle(tools, case, modes, wd)
+                                           ["seed:%d" % s for s in range(1, 13)] +
+                                           ["sorted@%s" % x for x in ["asc", "desc", "rand:1", "rand:2", "hlmax:1", "hlmin:1", "hlmid:1",
+                                                                      "hi32", "mod64", "top63", "dev2", "devhi"]]))
+            assigned = {}
+            res, groups, listed = order_oracle(tools, case, modes, wd, assigned)
             out["oracle"] = res
             out["listed"] = listed
             out["groups"] = groups
+            out["assigned"] = assigned
             if len(groups) > 1:
                 gs = sorted(groups.items(), key=lambda kv: -len(kv[1]))
-                out["diffdesc"] = describe_difference(tools, case, sorted(gs[0][1], key=lambda m: m == "none")[0],
-                                                      sorted(gs[1][1], key=lambda m: m == "none")[0], wd)
+                ma = sorted(gs[0][1], key=lambda m: m == "none")[0]
+                mb = sorted(gs[1][1], key=lambda m: m == "none")[0]
+                (oa, ia), (ob, ib) = split_mode(ma), split_mode(mb)
+                if oa != ob and ia != ib:
+                    # which of the two is it?  one more run: the readdir order of the one under the numbers of the other
+                    mx = oa + ("@" + ib if ib else "")
+                    if mx not in res:
+                        r2, _, l2 = order_oracle(tools, case, [mx], wd, assigned)
+                        res[mx] = r2[mx]
+                        listed.update(l2)
+                        groups.setdefault(res[mx], []).append(mx)
+                    ma, mb = (ma, mx) if res[mx] != res[ma] else (mx, mb)
+                out["pair"] = (ma, mb)
+                out["diffdesc"] = describe_difference(tools, case, ma, mb, wd)
+            # the same contents really created in another order
+            if out.get("variants") is None and case.variants and not case.mount and "none" in res:
+                out["variants"] = [creation_oracle(ctx, tools, case, how, wd, res["none"]) for how in case.variants]
         finally:
             release_case(case)
             shutil.rmtree(wd, ignore_errors=True)
@@ -1420,26 +1747,67 @@ def report_case(ctx, r, stats):
         concrete = True
         stats["oracle_bad"] += 1
         stats["oracle_bad_shaped"] = stats.get("oracle_bad_shaped", 0) + (1 if case.shaped else 0)
-        gs = sorted(groups.items(), key=lambda kv: -len(kv[1]))
-        (va, ma), (vb, mb) = gs[0], gs[1]
-        # witnesses: prefer the injected orders that do not depend on the host file system
-        ma = sorted(ma, key=lambda m: m == "none")
-        mb = sorted(mb, key=lambda m: m == "none")
-        f09 = has_multilink(case.spec) and case.hl_active()
-        sig = F09_SIG if f09 else "order-dependent-image:%s" % case.kind
-        what = ("gensquashfs %s writes different images for the same directory under two readdir orders: "
-                "order %s -> %s, order %s -> %s%s%s" % (
-                    " ".join(case.opts + (["-F pack.txt"] if case.kind == "file" else [])), ma[0],
-                    ("sha256 " + va[1][:16]) if va[1] else "exit %d" % va[0], mb[0],
-                    ("sha256 " + vb[1][:16]) if vb[1] else "exit %d" % vb[0],
-                    "; " + "; ".join(r.get("diffdesc") or []) if r.get("diffdesc") else "",
-                    " (a multiply-linked file: whichever name readdir returns first becomes the inode)" if f09 else ""))
+        # witnesses: check_case has narrowed them down to two runs that differ in the readdir order only or in the
+        # inode / device numbers only (the injected ones preferred: they do not depend on the host file system)
+        ma, mb = r["pair"]
+        va, vb = r["oracle"][ma], r["oracle"][mb]
+        ma, mb = [ma], [mb]
+        by_numbers = split_mode(ma[0])[0] == split_mode(mb[0])[0]
+        stats["oracle_bad_numbers"] = stats.get("oracle_bad_numbers", 0) + (1 if by_numbers else 0)
+        f09 = has_multilink(case.spec) and case.hl_active() and not by_numbers
+        sig = F09_SIG if f09 else ("host-number-dependent-image:%s" if by_numbers else "order-dependent-image:%s") % case.kind
+        show = lambda v: ("sha256 " + v[1][:16]) if v[1] else "exit %d" % v[0]
+        opts_s = " ".join(case.opts + (["-F pack.txt"] if case.kind == "file" else []))
+        diff_s = "; " + "; ".join(r.get("diffdesc") or []) if r.get("diffdesc") else ""
+        if by_numbers:
+            asg = r.get("assigned") or {}
+            linked = set(e["p"] for e in case.spec if e["k"] == "h") | set(e["of"] for e in case.spec if e["k"] == "h")
+            def brief(m):
+                if m not in asg:
+                    return "the host's numbers"
+                rows = [x for x in asg[m] if x[0] in linked or len(asg[m]) <= 8] or asg[m][:8]
+                return " ".join("%s=%s%d" % (q, ("%d:" % d) if split_mode(m)[1].startswith("dev") else "", i) for q, d, i in rows)[:160]
+            what = ("gensquashfs %s writes different images for the same directory, enumerated in the same order (%s), when only "
+                    "the inode / device numbers the host reports differ (equal numbers stay equal): assignment %s [%s] -> %s, "
+                    "assignment %s [%s] -> %s%s" % (
+                        opts_s, split_mode(ma[0])[0], split_mode(ma[0])[1] or "host", brief(ma[0]), show(va),
+                        split_mode(mb[0])[1] or "host", brief(mb[0]), show(vb), diff_s))
+        else:
+            what = ("gensquashfs %s writes different images for the same directory under two readdir orders: "
+                    "order %s -> %s, order %s -> %s%s%s" % (
+                        opts_s, ma[0], show(va), mb[0], show(vb), diff_s,
+                        " (a multiply-linked file: whichever name readdir returns first becomes the inode)" if f09 else ""))
         if sig not in stats["reported"]:
             stats["reported"].add(sig)
             ctx.violation(sig, what, dict(case=case.to_json(), modes=[ma[0], mb[0]],
                                           readdir_orders={m: (r.get("listed") or {}).get(m) for m in (ma[0], mb[0])},
+                                          inode_numbers={m: (r.get("assigned") or {}).get(m, "the host's own") for m in (ma[0], mb[0])},
                                           result={m: list(v) for m, v in (r["oracle"] or {}).items()},
                                           packfile_text=packfile_text(case.packfile) if case.packfile else None))
+    for v in r.get("variants") or []:
+        if v is None:
+            stats["variants_skipped"] = stats.get("variants_skipped", 0) + 1
+            continue
+        stats["variants_run"] = stats.get("variants_run", 0) + 1
+        stats["variants_on"] = v["on"]
+        if v["same"]:
+            continue
+        stats["variants_bad"] = stats.get("variants_bad", 0) + 1
+        concrete = True
+        sig = "creation-order-dependent-image:%s" % case.kind
+        if sig not in stats["reported"]:
+            stats["reported"].add(sig)
+            base = (r["oracle"] or {}).get("none")
+            ctx.violation(sig, "gensquashfs %s writes different images for two host directories with identical contents (type, "
+                          "permissions, owner, mtime, size, link target, link groups of every path compared) that were created in "
+                          "different orders, each enumerated in its host order with its host inode numbers: case tree -> %s, created in "
+                          "order '%s' below %s -> %s" % (
+                              " ".join(case.opts + (["-F pack.txt"] if case.kind == "file" else [])),
+                              ("sha256 " + base[1][:16]) if base and base[1] else "exit %r" % (base[0] if base else None), v["how"], v["on"],
+                              ("sha256 " + v["result"][1][:16]) if v["result"][1] else "exit %d" % v["result"][0]),
+                          dict(case=dict(case.to_json(), variants=[v["how"]]), modes=["none"], creation_order=v["created"],
+                               host_numbers=dict(case_tree=v["numbers_base"], variant=v["numbers_variant"]),
+                               raw_root_listing=v["raw_root_listing"]))
     for t in r["ties"]:
         stats["tie_runs"] += 1
         stats["entries"] += t.get("entries", 0)
@@ -1471,7 +1839,8 @@ def report_case(ctx, r, stats):
 def run(ctx):
     tools = private_tools(ctx)
     ctx.trusted += [
-        "props/C11/shim_readdir.c (LD_PRELOAD: permutes and logs what readdir returns), props/C11/h_scan.c + h_dump.h "
+        "props/C11/shim_readdir.c (LD_PRELOAD: permutes and logs what readdir returns; remaps st_dev/st_ino/d_ino of stat, lstat, "
+        "fstat, fstatat, statx, readdir results through a given bijection and logs what it applied), props/C11/h_scan.c + h_dump.h "
         "(gensquashfs with a logging iterator wrapper and an fstree dump), props/C11/h_fstree.c, props/C11/driver.ml + stubs.c, "
         "props/C11/driver_img.ml; vlib/sqfsimg.py (decodes the real image for tie 1b)",
         "python glue of props/C11/check.py: lstat of the generated tree -> model input; option/pack-file parsing of "
@@ -1504,7 +1873,8 @@ def run(ctx):
             cases = [Case.from_json(j["case"])]
         modes = j.get("modes") or ["sorted", "reverse"]
         for c in cases:
-            r = check_case(ctx, tools, c, modes, list(dict.fromkeys(modes + ["none", "sorted", "reverse", "seed:1", "seed:2"])))
+            r = check_case(ctx, tools, c, modes, list(dict.fromkeys(["none"] + modes + ["sorted", "reverse", "seed:1", "seed:2",
+                                                                                 "sorted@asc", "sorted@desc", "sorted@rand:1"])))
             report_case(ctx, r, stats)
             ctx.log("replay %s: oracle groups=%d tie=%s" % (c.cid, len(r["groups"] or {}), [(t["mode"], t["ok"], t["kind"]) for t in r["ties"]]))
         ctx.coverage["evaluations"] = stats["tie_runs"]
@@ -1514,8 +1884,11 @@ def run(ctx):
     cases = gen_cases(ctx)
     k = 6 if ctx.tier == "quick" else 12
     jobs = []
-    for c in cases:
-        ms = modes_for(ctx, c, rnd, k)
+    for ci, c in enumerate(cases):
+        ms = modes_for(ctx, c, rnd, k, ci)
+        # a second copy of the contents, really created in another order (two for the shaped trees, thorough: all four)
+        nv = 4 if ctx.tier != "quick" else (2 if c.shaped else 1)
+        c.variants = [CREATION_VARIANTS[(ci + j) % 4] for j in range(nv)]
         # ms[2] = reverse (first: the sensitivity analysis of the shaped trees uses it), ms[3] a shuffle, ms[4] a rotation
         if ctx.tier == "quick":
             tie_modes = [ms[2], ms[4]] if c.shaped else [ms[2], ms[3]]
@@ -1541,6 +1914,12 @@ def run(ctx):
             "(%d broken, %d of failing packer runs), %d entries streamed, oracle: %d cases with order-dependent images (%d of them shaped trees)"
             % (len(cases), n_links, n_links_hl, stats["tie_runs"], stats["tie_bad"], stats["failed_runs"], stats["entries"], stats["oracle_bad"],
                stats.get("oracle_bad_shaped", 0)))
+    ctx.log("host numbers: every oracle run but the host-order one and every tie run sees the tree through a bijection on its "
+            "(st_dev, st_ino) pairs (%s; the model is fed the remapped numbers): %d cases whose image depends on the numbers alone; "
+            "creation order: %d second copies of the contents created in another order (%s) below %s and packed without injection "
+            "(%d not comparable: the host did not reproduce the contents), %d with another image"
+            % (" ".join(INO_MODES), stats.get("oracle_bad_numbers", 0), stats.get("variants_run", 0), " ".join(CREATION_VARIANTS),
+               stats.get("variants_on", "-"), stats.get("variants_skipped", 0), stats.get("variants_bad", 0)))
     ctx.log("image level (tie 1b): %d images decoded, %d compared byte for byte (%d table bytes), %d with multi-block tables skipped"
             % (stats.get("image_runs", 0), stats.get("image_exact", 0), stats.get("image_bytes", 0),
                stats.get("image_runs", 0) - stats.get("image_exact", 0)))
@@ -1548,7 +1927,8 @@ def run(ctx):
     cstats = run_component(ctx, tools, 5000 if ctx.tier == "quick" else 100000)
     ctx.log("component level: %s" % cstats)
 
-    ctx.coverage["evaluations"] = stats["tie_runs"] + cstats["cases"] + len(cases) * k
+    n_oracle = sum(len(j[2]) for j in jobs)
+    ctx.coverage["evaluations"] = stats["tie_runs"] + cstats["cases"] + n_oracle + stats.get("variants_run", 0)
     ctx.coverage["distinct_nontrivial"] = sum(1 for r in results if r["ties"] and all(not t.get("failed_run") for t in r["ties"])
                                               and len(r["case"].spec) >= 3) + cstats["nontrivial"]
     ctx.coverage["traces_validated_against_impl"] = stats["tie_runs"] - stats["tie_bad"] + cstats["cases"] - cstats["tie_bad"]
@@ -1562,10 +1942,12 @@ def run(ctx):
         "with glob lines using -type -name -path -keeptime -nonrecursive -xdev -nohardlinks and sub directory arguments, mixed with "
         "dir/file/slink lines); tie: %d readdir orders per case, model fed with the logged order; oracle: %d readdir orders per case "
         "(host order, sorted, reverse - together both relative orders of every pair of siblings -, a rotation of each, seeded "
-        "shuffles); component level: %d add sequences (2 random orders of each entry set, 40%% 'wild' "
+        "shuffles), each but the host order under an injected bijection of the inode / device numbers (ascending, descending, random, "
+        "multiply-linked files smallest / largest / in the middle, equal low 32 bits, equal modulo 64, around 2^63, other device "
+        "numbers), plus second copies of the contents created in another order on tmpfs; component level: %d add sequences (2 random orders of each entry set, 40%% 'wild' "
         "with duplicate paths, unclean/dangling/chained hard link targets, out-of-range mtimes). non-trivial = packer succeeded on a "
         "tree with >= 3 entries / component dump with > 4 lines"
-        % (ctx.seed, len(cases), n_links, n_shaped, len(jobs[0][1]), k, cstats["cases"]))
+        % (ctx.seed, len(cases), n_links, n_shaped, len(jobs[0][1]), len(jobs[0][2]), cstats["cases"]))
     ctx.coverage["distribution"] = dict(cases=len(cases), trees_with_multilinks=n_links, multilink_and_detection_on=n_links_hl,
                                         pack_dir=sum(1 for c in cases if c.kind == "dir"),
                                         pack_file=sum(1 for c in cases if c.kind == "file"),
@@ -1575,7 +1957,11 @@ def run(ctx):
                                         shaped_trees=n_shaped,
                                         shaped_directories_sensitive_of_total={t: "%d/%d" % (v[1], v[0]) for t, v in sorted(stats["sens"].items())},
                                         component=cstats)
-    ctx.coverage["search_oracle"] = dict(images_hashed=len(cases) * k, order_dependent_cases=stats["oracle_bad"])
+    ctx.coverage["search_oracle"] = dict(images_hashed=n_oracle + stats.get("variants_run", 0), order_dependent_cases=stats["oracle_bad"],
+                                         number_dependent_cases=stats.get("oracle_bad_numbers", 0),
+                                         creation_order_copies=stats.get("variants_run", 0),
+                                         creation_order_copies_not_comparable=stats.get("variants_skipped", 0),
+                                         creation_order_dependent=stats.get("variants_bad", 0))
     smp = []
     for r in results[:40]:
         if r["ties"] and r["ties"][0].get("impl") and len(smp) < 3:
@@ -1583,7 +1969,7 @@ def run(ctx):
             smp.append(dict(case=r["case"].cid, opts=r["case"].opts, readdir_order=t["mode"], impl_head=t["impl"][:4],
                             model_head=(t.get("model") or [])[:4]))
     ctx.add_samples(smp)
-    if stats["tie_bad"] or stats["oracle_bad"]:
+    if stats["tie_bad"] or stats["oracle_bad"] or stats.get("variants_bad"):
         ctx.tie_broken.append("tie 1 (scan)")
 
     if ctx.tier == "thorough" and ctx.proof and ctx.proof.get("ok"):
